@@ -234,6 +234,31 @@ Definition judge_helper (r : redeemers) (cm : costmdls) (d : option plutus_list)
   | _ => Fails 0
   end.
 
+(* did the hash the builder holds after [ops] come from calc_script_data_hash (and not from set_script_data_hash)? *)
+Fixpoint calc_stored (b : builder) (flag : bool) (ops : list op) : bool :=
+  match ops with
+  | [] => flag
+  | o :: t =>
+      let flag' := match o with
+                   | OpCalc cm => match calc_preimage b cm with Ok (Some _) => true | _ => flag end
+                   | OpSetHash _ | OpRemoveHash => false
+                   | _ => flag
+                   end in
+      calc_stored (fst (step H b o)) flag' t
+  end.
+
+(* known class C09-noop-calc-keeps-hash: the last calc_script_data_hash found nothing to hash (every Plutus witness and
+   extra datum present at an earlier calc has been replaced away since: an input added again as a key input, a
+   sub-builder replaced by one without Plutus witnesses) and left in place a hash that an EARLIER calc had stored *)
+Definition known_noop_calc (ops : list op) : bool :=
+  match last_calc_rev (rev ops) with
+  | Some (cm, before) =>
+      let b0 := fst (run H builder_new (rev before)) in
+      is_ok (calc_script_data_hash H b0 cm) && negb (has_script_items b0) && is_some (b_script_data_hash b0) &&
+      calc_stored builder_new false (rev before)
+  | None => false
+  end.
+
 (* builder history: the emitted transaction against the ledger definitions.  The auxiliary-data hash is checked
    always; the script-data hash when it was computed by calc_script_data_hash after the last script item was
    added (and was not replaced since).  [built] = whether build_tx succeeded, [tx_bytes] = the transaction. *)
@@ -250,6 +275,14 @@ Definition judge_builder (ops : list op) (tx_bytes : bytes) : verdict :=
                  (ledger_script_integrity H (v_redeemers v) (v_datums v) (langs_used b) cm)
             then Holds
             else if known_stale_lang b0 && opt_bytes_eqb (v_script_data_hash v) (b_script_data_hash b) then Fails 3
+            else Fails 0
+          else if known_noop_calc ops then
+            (* the hash in the body is an earlier state's: the ledger derives its hash from the emitted witness set *)
+            let b := fst (run H builder_new ops) in
+            if opt_bytes_eqb (v_script_data_hash v)
+                 (ledger_script_integrity H (v_redeemers v) (v_datums v) (langs_used b) cm)
+            then Holds
+            else if opt_bytes_eqb (v_script_data_hash v) (b_script_data_hash b) then Fails 4
             else Fails 0
           else NotApplicable
       | None => NotApplicable
